@@ -15,7 +15,7 @@ RecGroup == {Sym(<<T3(g.A[1]), T3(g.A[2]), T3(g.A[3])>>, g.inv, g.tr) : g \in {R
 (* clauses are independent of the order of the K-list / k-sets and of which member of an orbit represents it *)
 KListClauses ==
    LET div == T3(Rec.div)  fft == T3(Rec.fft)  G == RecGroup  kl == RecKList  ks == RecKSets IN
-   [ group_is_catalogue |-> G = GroupOf(Rec.grp),
+   [ harness_group_is_catalogue |-> G = GroupOf(Rec.grp),     \* binding of the harness (MachineryError when it fails)
      grids_symmetric    |-> SymmetricGrid(div, G) /\ SymmetricGrid(fft, G),
      klist_valid        |-> IF Rec.sym THEN ValidReduction(kl, div, G) ELSE ValidFull(kl, div),
      ksets_valid        |-> KSetsValid(kl, ks, div, fft),
@@ -47,23 +47,21 @@ RunClauses ==
      orbits_complete  |-> Len(Rec.orbits) = Cardinality(Orbits(N, G)) ]
 
 Opt(v) == IF Len(v) = 0 THEN None ELSE T3(v)
-(* determineNK: explicit arguments have documented results (value, warnings); what autoNK picks is a heuristic - only its
-   post-conditions are demanded *)
+(* determineNK.  Recorded: kind = "ok" | "refused" (any exception), div, fft.  Demanded: an input the specification accepts is
+   accepted; explicit arguments give the documented grid up to the rounding rule (ExplicitValueOK); what autoNK picks is a
+   heuristic - only its post-conditions are demanded.  Not demanded: the exception class, warnings, that an invalid input is refused. *)
 NKClauses ==
    LET G == GroupOf(Rec.grp)
        per == <<Rec.periodic[1], Rec.periodic[2], Rec.periodic[3]>>
        r == DetermineNK(per, Opt(Rec.NKdiv), Opt(Rec.NKFFT), Opt(Rec.NK), T3(Rec.rec), G)
        ok == r.kind \in {"ok", "auto"}
+       accepted == Rec.kind = "ok"
        compat == \A g \in G : \A a \in 1..3, b \in 1..3 : g.A[a][b] # 0 => per[a] = per[b]
-       warn == {Rec.warn[k] : k \in 1..Len(Rec.warn)}
    IN
-   [ kind     |-> Rec.kind = (IF ok THEN "ok" ELSE r.kind),
-     value    |-> r.kind # "ok" \/ (Opt(Rec.div) = r.div /\ Opt(Rec.fft) = r.fft),
-     warnings |-> r.kind # "ok" \/ warn = r.warn,
-     post     |-> ~ok \/ ( /\ \A k \in 1..3 : Rec.div[k] >= 1 /\ Rec.fft[k] >= 1 /\ (per[k] \/ (Rec.div[k] = 1 /\ Rec.fft[k] = 1))
-                           /\ (~compat \/ (SymmetricGrid(T3(Rec.div), G) /\ SymmetricGrid(T3(Rec.fft), G))) ),
-     exact    |-> ~(Rec.kind = "ok" /\ Len(Rec.NK) = 3 /\ "adjusted" \notin warn /\ "NK_disregarded" \notin warn)
-                  \/ Times3(T3(Rec.div), T3(Rec.fft)) = MaskPeriodic(T3(Rec.NK), per) ]
+   [ accepts_valid |-> ok => accepted,
+     value    |-> (accepted /\ r.kind = "ok") => ExplicitValueOK(per, Opt(Rec.NKdiv), Opt(Rec.NKFFT), Opt(Rec.NK), T3(Rec.div), T3(Rec.fft)),
+     post     |-> (accepted /\ ok) => ( /\ \A k \in 1..3 : Rec.div[k] >= 1 /\ Rec.fft[k] >= 1 /\ (per[k] \/ (Rec.div[k] = 1 /\ Rec.fft[k] = 1))
+                                        /\ (~compat \/ (SymmetricGrid(T3(Rec.div), G) /\ SymmetricGrid(T3(Rec.fft), G))) ) ]
 
 Clauses == CASE Rec.fn = "klist" -> KListClauses
              [] Rec.fn = "run" -> RunClauses
